@@ -113,7 +113,8 @@ func (l *listener) receiveRetry(ctx context.Context) (ndp.Message, netip.Addr, e
 	// TODO(mdlayher): consider parameterizing in the future if need be.
 	const retries = 5
 
-	for i := 0; i < retries; i++ {
+	// Only consecutive timeouts count against the retry budget.
+	for i := 0; i < retries; {
 		// Enable cancelation before receiving any messages, if necessary.
 		if err := ctx.Err(); err != nil {
 			return nil, netip.Addr{}, err
@@ -135,6 +136,7 @@ func (l *listener) receiveRetry(ctx context.Context) (ndp.Message, netip.Addr, e
 					return nil, netip.Addr{}, ctx.Err()
 				case <-time.After(time.Duration(i) * 50 * time.Millisecond):
 				}
+				i++
 				continue
 			}
 
@@ -145,6 +147,11 @@ func (l *listener) receiveRetry(ctx context.Context) (ndp.Message, netip.Addr, e
 		if cm.HopLimit != ndp.HopLimit {
 			l.logf("received NDP message with IPv6 hop limit %d from %s, ignoring", cm.HopLimit, host)
 			l.cctx.mm.MessagesReceivedInvalidTotal(1.0, l.iface, m.Type().String())
+
+			// A message was received, albeit an invalid one. It must not
+			// consume the retry budget, or a handful of bogus messages from any
+			// host on the link would stop the listener.
+			i = 0
 			continue
 		}
 
